@@ -94,7 +94,8 @@ pub fn gen_node(r: &mut Rng, tier: &str, rooms: u8, nondyadic: bool, name: &'sta
                 nondyadic,
                 allow_freeable: i % 3 != 0,
             };
-            Case { stream: name, data: json!({"inst": gen::gen_instance(r, &p).to_json(), "max_nodes": if big { 120 } else { 60 }}) }
+            let inst = if nondyadic && i % 6 == 5 { gen::gen_f32_corner(r) } else { gen::gen_instance(r, &p) };
+            Case { stream: name, data: json!({"inst": inst.to_json(), "max_nodes": if big { 120 } else { 60 }}) }
         })
         .collect()
 }
@@ -348,11 +349,16 @@ pub fn run_solve(data: &Value) -> Vec<Line> {
         match &inst.rooms {
             None => {
                 let ok = got == opt_norooms;
-                let mut l = Line::direct(&["C02"], ok, format!("reported {:?}, brute-force optimum {:?}", got, opt_norooms));
                 if !ok && known_class {
-                    l.what = format!("KNOWN:freeable_instructor {}", l.what);
+                    // inside the class of the known finding F1: it is the known finding only if the
+                    // model of the unchanged algorithm arrives at the same sub-optimal answer
+                    let mut l = Line::spec(&["C02"], "B", it.clone(),
+                        format!("best={} complete=true", got.map_or("none".to_string(), |g| g.to_string())));
+                    l.what = format!("KNOWN-IF-MATCH:freeable_instructor reported {:?}, brute-force optimum {:?}", got, opt_norooms);
+                    lines.push(l);
+                } else {
+                    lines.push(Line::direct(&["C02"], ok, format!("reported {:?}, brute-force optimum {:?}", got, opt_norooms)));
                 }
-                lines.push(l);
             }
             Some(_) => {
                 let ok = match (got, opt_norooms) {
